@@ -20,6 +20,22 @@ def resiOf (j : Json) : Except String ResiE := do
   | [c, r] => return { cls := (← str c).toList, num := ← nat r }
   | _ => err "C17: residue is [class, number]"
 
+def opOf (j : Json) : Except String Op := do
+  match ← arr j with
+  | [k] => if (← str k) == "check" then return .check else err "C17: op"
+  | [k, a] =>
+    match ← str k with
+    | "delItem" => return .delItem (← nat a)
+    | "delete" => return .delete (← nat a)
+    | "add" => return .add (← str a).toList
+    | _ => err "C17: op"
+  | [k, a, b] =>
+    match ← str k with
+    | "rename" => return .rename (← nat a) (← str b).toList
+    | "setResi" => return .setResi (← nat a) (← nat b)
+    | _ => err "C17: op"
+  | _ => err "C17: op"
+
 def outcome (o : Except PyErr Outcome) : Json :=
   match o with
   | .error .valueError => Json.mkObj [("err", Json.str "ValueError")]
@@ -34,11 +50,19 @@ def handle (j : Json) : Except String Json := do
   | "check" =>
     let atoms ← (← arrField j "atoms").mapM atomOf
     let resis ← (← arrField j "resis").mapM resiOf
-    let f : File := { atoms, resis }
+    let ops ← match fieldOpt j "ops" with
+      | some o => (← arr o).mapM opOf
+      | none => pure []
+    -- the state after the history (no ops: the freshly parsed file, cache empty)
+    let f : File := run { atoms, resis } ops
     let r : Restr := { kw := (← strField j "kw").toList, atoms := (← field j "toks" >>= strs).map String.toList }
     let spec := Json.mkObj [
       ("missing", pairs (missing f r)),
       ("wf", Json.bool (decide (WellFormed f r))),
+      ("wfData", Json.bool (wfFile f && wfKw r.kw && r.atoms.all wfTok)),
+      ("coherent", Json.bool (coherent f)),
+      ("apiOnly", Json.bool (ops.all Op.keepsIndex)),
+      ("atomsAfter", Json.arr (f.atoms.map fun a => Json.arr #[s2j a.name, ofNat a.resi]).toArray),
       ("classKnown", match kwSfx r.kw with
                       | .cls _ => Json.bool (!(classUnknown f r))
                       | _ => Json.null),
